@@ -6,6 +6,7 @@ CONSTANTS
   MaxLook = 1000
   Proxies = {"p1"}
   PidFaults = TRUE
+  ProxyUnregisters = FALSE
   Mutant = "none"
 CONSTRAINT Progress
 INVARIANTS
